@@ -830,6 +830,21 @@ func main() {
 	obs := map[string]bool{}
 	refl := map[string]bool{}
 	syncu := map[string]bool{}
+	// types declared by the GENERATED parser (parse-tree contexts, the lexer and parser themselves): an assertion to one
+	// of them inspects the parse tree, not a value of the input object - it is no observer of input values
+	genTypes := map[string]bool{}
+	for _, gf := range files {
+		if gf.hand {
+			continue
+		}
+		for _, d := range gf.file.Decls {
+			if gd, ok := d.(*ast.GenDecl); ok && gd.Tok == token.TYPE {
+				for _, sp := range gd.Specs {
+					genTypes[sp.(*ast.TypeSpec).Name.Name] = true
+				}
+			}
+		}
+	}
 	inventory := func(rel string, root ast.Node, observers bool) {
 		// a type that mentions a type parameter of the enclosing generic function is not ONE observer: what is observed
 		// depends on the instantiations. It is recorded as such and claims nothing (the quotient then rests on the
@@ -855,19 +870,29 @@ func main() {
 			}
 			return render(e)
 		}
+		addObs := func(e ast.Expr) {
+			base := e
+			if st, ok := base.(*ast.StarExpr); ok {
+				base = st.X
+			}
+			if id, ok := base.(*ast.Ident); ok && genTypes[id.Name] {
+				return
+			}
+			obs[obsName(e)] = true
+		}
 		ast.Inspect(root, func(n ast.Node) bool {
 			switch x := n.(type) {
 			case *ast.GoStmt:
 				f.GoStmts++
 			case *ast.TypeAssertExpr:
 				if x.Type != nil && observers {
-					obs[obsName(x.Type)] = true
+					addObs(x.Type)
 				}
 			case *ast.TypeSwitchStmt:
 				if observers {
 					for _, c := range x.Body.List {
 						for _, e := range c.(*ast.CaseClause).List {
-							obs[obsName(e)] = true
+							addObs(e)
 						}
 					}
 				}
